@@ -278,6 +278,10 @@ func (w *World) apply(ds *Doc, op sim.Op, o *Obs) {
 			panic("world: mdfile: " + err.Error())
 		}
 		src, out := filepath.Join(dir, "src.md"), filepath.Join(dir, "out.docx")
+		if op.Int(1) == 1 {
+			out = dir // the output path is an existing directory: the Save inside ConvertFile fails
+			w.Stats.Faults["W-target(ConvertFile)"]++
+		}
 		if err := os.WriteFile(src, []byte(op.Str(0)), 0o644); err != nil {
 			panic("world: mdfile: " + err.Error())
 		}
